@@ -52,13 +52,13 @@ func (s *langState) clone() *langState {
 }
 
 type leafInterp struct {
-	c        *Ctx
-	info     *types.Info
-	al       *Alphabet
-	appendFn *types.Func // the formatter's append-to-buffer method
-	fmtType  *types.Named
-	memo     map[string]*DFA
-	problems []string
+	c             *Ctx
+	info          *types.Info
+	al            *Alphabet
+	appendFn      *types.Func // the formatter's append-to-buffer method
+	fmtType       *types.Named
+	memo          map[string]*DFA
+	problems      []string
 	imprecise     bool
 	impreciseKeys map[string]bool
 }
